@@ -202,15 +202,17 @@ def hyp_settings(max_examples: int, **kw):
     )
 
 
-DRIVE_CHUNK = 500
+DRIVE_CHUNK = 400
 
 
-def drive(strategy, fn: Callable[[Any], None], seed: int, max_examples: int) -> None:
+def drive(strategy, fn: Callable[[Any], None], seed: int, max_examples: int, chunk: int | None = None) -> None:
     """Run fn over max_examples draws of strategy, deterministically from seed.
 
     fn must not raise on oracle failure (collect mode); exceptions are harness errors.
-    Large counts are split into runs of DRIVE_CHUNK examples with derived seeds: Hypothesis keeps a tree of everything it
-    generated in one run, which for thousands of large documents grows to gigabytes per worker.
+    Large counts are split into runs of `chunk` (default DRIVE_CHUNK) examples with derived seeds: Hypothesis keeps a tree of
+    everything it generated in one run (that is what makes every example of a run novel), about 3 MB per model document,
+    which for thousands of documents grows to gigabytes per worker. Callers whose cases are small records pass a large
+    chunk and keep the novelty guarantee over the whole run.
     """
     import gc
 
@@ -220,7 +222,7 @@ def drive(strategy, fn: Callable[[Any], None], seed: int, max_examples: int) -> 
     done = 0
     i = 0
     while done < max_examples:
-        n = min(DRIVE_CHUNK, max_examples - done)
+        n = min(chunk or DRIVE_CHUNK, max_examples - done)
 
         @hypothesis.seed((seed + 7919 * i) % (2**63))
         @hyp_settings(n)
